@@ -32,7 +32,7 @@ GROUPINGS = ["none", "page_by1", "page_by2", "page_by_newpage_column", "page_by_
 
 TABLE_DIMS = {
     "n": [3, 0, 1, 2, 5, 12],
-    "cols": [["s", "i"], ["s"], ["s", "i", "f"], ["p", "m", "z"], ["s", "i", "f", "s", "i"], ["i", "f"], []],
+    "cols": [["s", "i"], ["s"], ["s", "i", "f"], ["p", "m", "z"], ["s", "i", "f", "s", "i"], ["i", "f"], ["s", "ni", "nf"], ["u", "i", "u"], []],
     "title": [1, 0, 2],
     "subline": [False, True],
     "header": ["default", "explicit", "two", "none", "off", "explicit_long", "explicit_short"],
